@@ -51,7 +51,7 @@ func gen(rt *rapid.T) any {
 	if r.Prog.Corpus == "" {
 		r.Prog.ForceImports = gencommon.ForceImports(rt)
 	}
-	r.Front = gencommon.Front(rt, gencommon.FrontSpec{Faults: []string{"discard_ref", "discard_reset", "abort_stmt"}, MaxFaults: 3, Constructs: []string{"inline_closure", "bigint_op", "unit_lit", "unsafe_ref", "bti_call", "generic_decl"}, FileAssign: true, Writes: true})
+	r.Front = gencommon.Front(rt, gencommon.FrontSpec{Faults: []string{"discard_ref", "discard_reset", "abort_stmt"}, MaxFaults: 3, Constructs: []string{"inline_closure", "bigint_op", "unit_lit", "unsafe_ref", "bti_call", "generic_decl"}, FileAssign: true, Writes: true, LateRefs: true})
 	r.MapDflt = rapid.IntRange(0, 23).Draw(rt, "mapdflt")
 	n := rapid.IntRange(0, 6).Draw(rt, "nmo")
 	for i := 0; i < n; i++ {
@@ -244,6 +244,9 @@ func exec1(rec any) *core.Outcome {
 	discardOnly := map[string]bool{}
 	for _, d := range res.Discarded {
 		discardOnly[d] = true
+	}
+	for _, lr := range res.LateRefs { // referenced for good after the first write
+		delete(discardOnly, lr[1])
 	}
 	renamed := 0
 	for fi, f := range files {
